@@ -134,7 +134,9 @@ func (s *Scheduler) Retry(ctx context.Context, prev StepState) (state StepState,
 			if err != nil {
 				task = fetched
 			}
-			state = s.dispatchTask(ctx, task, true)
+			// The failed dispatch may or may not have marked the task as dispatched.
+			// Skip marking only if that is already done.
+			state = s.dispatchTask(ctx, task, err == nil && fetched.State == def.TaskDispatched)
 			return state.Err()
 		},
 		Dispatched: func(id string) error {
